@@ -420,9 +420,12 @@ def g_string(s):
 
 
 def load_known(prop):
-    path = os.path.join(ROOT, "known_findings.txt")
+    import glob
+    paths = [os.path.join(ROOT, "known_findings.txt")] + sorted(glob.glob(os.path.join(ROOT, "known_findings.d", "*.txt")))
     out = []
-    if os.path.exists(path):
+    for path in paths:
+        if not os.path.exists(path):
+            continue
         for line in open(path):
             line = line.strip()
             m = re.match(r"^finding:\s+property=(\S+)\s+key=(\S+)\s+(.*)$", line)
